@@ -11,7 +11,7 @@ class Ctx:
         self.obligations = []     # (name, status, model)
     def fresh(self, name, sort=None):
         self.k += 1; return z3.Const(f"{name}!{self.k}", sort if sort is not None else z3.IntSort())
-    def feasible(self, *extra): return self.solver.check(*self.pc, *extra) == z3.sat
+    def feasible(self, *extra): return self.solver.check(*self.pc, *extra) != z3.unsat   # unknown is not infeasible: never drop a path silently
     def assume(self, c):
         c = tobool(c); self.pc.append(c)
         if not self.feasible(): raise PathEnd()
